@@ -5,6 +5,7 @@ implementation's own answer (round trip gives the input back; listing order = fi
 import random
 
 PROP = "C03"
+SUBCHECKS = ["C03L"]   # length bounds of the name codec; parts_meta_u64_total (props/C03L.v)
 AREAS = ["collection"]
 THEOREMS = ["cvarint_roundtrip", "zigzag_roundtrip", "zigzag_i64_roundtrip", "field_roundtrip", "names_roundtrip",
             "sample_names_roundtrip", "details_roundtrip", "batches_roundtrip", "listing_order"]
